@@ -153,9 +153,10 @@ VStsd(m, kind) == [version |-> IntF(m, 1, 8), flags |-> FlagsF(m, 2),
                    avc1 |-> IF kind = "avc1" THEN Some(VAvc1(m, 1, 1)) ELSE None, hev1 |-> IF kind = "hev1" THEN Some(VHev1(m, 1, 1)) ELSE None,
                    vp09 |-> IF kind = "vp09" THEN Some(VVp09(m)) ELSE None, mp4a |-> IF kind = "mp4a" THEN Some(VMp4a(m, 2)) ELSE None,
                    tx3g |-> IF kind = "tx3g" THEN Some(VTx3g(m)) ELSE None]
+\* opt "both" (with "co64"): the two chunk offset tables side by side
 VStbl(m, opt) == [stsd |-> VStsd(m, "mp4a"), stts |-> VStts(m, 1), ctts |-> IF "ctts" \in opt THEN Some(VCtts(m, 1)) ELSE None,
                   stss |-> IF "stss" \in opt THEN Some(VStss(m, 2)) ELSE None, stsc |-> VStsc(m, 1), stsz |-> VStsz(m, 2),
-                  stco |-> IF "co64" \in opt THEN None ELSE Some(VStco(m, 1)), co64 |-> IF "co64" \in opt THEN Some(VCo64(m, 1)) ELSE None]
+                  stco |-> IF "co64" \in opt /\ "both" \notin opt THEN None ELSE Some(VStco(m, 1)), co64 |-> IF "co64" \in opt THEN Some(VCo64(m, 1)) ELSE None]
 VMinf(m, hd) == [vmhd |-> IF hd = "vmhd" THEN Some(VVmhd(m)) ELSE None, smhd |-> IF hd = "smhd" THEN Some(VSmhd(m)) ELSE None,
                  dinf |-> VDinf(m, TRUE), stbl |-> VStbl(m, {})]
 VMdia(m) == [mdhd |-> VMdhd(m, 0), hdlr |-> VHdlr(m, 2), minf |-> VMinf(m, "vmhd")]
@@ -229,7 +230,7 @@ ValsOf(t, m) ==
     [] t = "mp4a" -> {VMp4a(m, a) : a \in {0, 2, 34}}
     [] t = "tx3g" -> {VTx3g(m)}
     [] t = "stsd" -> {VStsd(m, k) : k \in {"avc1", "hev1", "vp09", "mp4a", "tx3g", "none"}}    \* "none": no sample entry (the Default value)
-    [] t = "stbl" -> {VStbl(m, o) : o \in SUBSET {"ctts", "stss", "co64"}}
+    [] t = "stbl" -> {VStbl(m, o) : o \in (SUBSET {"ctts", "stss", "co64"}) \cup {{"co64", "both"}}}
     [] t = "minf" -> {VMinf(m, h) : h \in {"vmhd", "smhd", "none"}}
     [] t = "mdia" -> {VMdia(m)}
     [] t = "ilst" -> {VIlst(m, ks) : ks \in SUBSET {"Title", "Year", "Poster", "Summary"}}
